@@ -411,6 +411,23 @@ func runC06(seed int64, n int, dir string, _ []string) {
 				got = "E"
 			}
 			o.Case("c06.rowcmp "+op+" "+strings.Join(encs, " "), got)
+			// the same row-value comparison through program text (k >= 2: `(a, b) op (c, d)`)
+			if k >= 2 {
+				if lx, ok1 := sqlLits(xs...); ok1 {
+					if ly, ok2 := sqlLits(ys...); ok2 {
+						// csvq accepts a row-value comparison as a search condition (WHERE), and IN with row values
+						v2, err2 := pr.Query("SELECT 1 FROM (SELECT 1) AS one WHERE (" + strings.Join(lx, ", ") + ") " + op + " (" + strings.Join(ly, ", ") + ")")
+						if err2 != nil {
+							o.Law("rowcmp_sql_error", err2.Error())
+						} else {
+							if (v2.RecordLen() == 1) != (got == "T") {
+								o.Law("rowcmp_sql_vs_direct", []string{op, got, fmt.Sprint(v2.RecordLen())})
+							}
+							o.Count("rowcmp_sql")
+						}
+					}
+				}
+			}
 			o.NonTrivial(fmt.Sprintf("rowcmp:%s:%d:%s", op, k, got))
 		}
 
